@@ -170,7 +170,8 @@ pub fn gen_bld(r: &mut Rng, thorough: bool, cx: &mut Ctx) {
         let ne = r.coin(); let addr = r.u16b() as u16;
         let mut fs = vec![mk(ne, true, true, true, m - 1, addr, 8, r)];
         for i in 1..m { if i == 9 { fs.push(mk(ne, false, true, false, i + 256, addr, 8, r)); } fs.push(mk(ne, false, true, false, i, addr, if i == m - 1 { 3 } else { 8 }, r)); }
-        fs.push(mk(ne, false, true, false, m, addr, 8, r)); fs.push(mk(ne, false, true, false, m, addr, 8, r)); fs.push(mk(ne, false, true, false, m - 1, addr, 8, r));
+        let sur = m.min(4095);      // surplus frames: ids stay below 4096, otherwise the whole history would be outside the property's (well-formed frames) domain
+        fs.push(mk(ne, false, true, false, sur, addr, 8, r)); fs.push(mk(ne, false, true, false, sur, addr, 8, r)); fs.push(mk(ne, false, true, false, m - 1, addr, 8, r));
         let mut l = vec![fs.len() as u64]; for f in &fs { show_frame(f, &mut l); } cx.emit(&l);
     }
     let _ = parse_can;
